@@ -28,9 +28,18 @@ def run(check: Check, repo: Repo, tier: str) -> None:
     S.skip_reports(check, repo)
     S.wrapper_pairing(check, repo, [('utilities.type_comparators', 'is_equal_type'), ('utilities.type_comparators', 'is_type_sub_type_of')])
     S.schema_errors_first(check, repo)
+    from rules import kind_tables as KT
+    kp = S.predicate_classes(repo)
+    tc = "utilities.type_comparators"
+    KT.kind_table(check, repo, repo.func(tc, "is_type_sub_type_of"), "maybe_subtype", "super_type",
+                  KT.spec_is_type_sub_type_of("maybe_subtype", "super_type"), kp)
+    KT.kind_table(check, repo, repo.func(tc, "is_equal_type"), "type_a", "type_b", KT.spec_is_equal_type("type_a", "type_b"), kp)
+    KT.kind_table(check, repo, repo.func(tc, "do_types_overlap"), "type_a", "type_b", KT.spec_do_types_overlap("type_a", "type_b"), kp,
+                  kinds=("Object", "Interface", "Union"), what="(composite kinds)")
     check.rule("DISPATCH-EXH", "every member of a closed class family has a handling arm in the dispatch")
     preds = S.predicate_classes(repo)
     fn = repo.func("type.validate", "SchemaValidationContext.validate_types")
     S.dispatch_exhaustive(check, "DISPATCH-EXH", fn, "type_", S.NAMED_TYPES, preds,
                           {"GraphQLScalarType": "scalars have nothing to validate beyond their name"},
                           "validate_types")
+    check.floor("KIND-TABLE", 3, "kind-dispatch functions folded into decision tables")
